@@ -500,12 +500,20 @@ class Session:
             f = self.field_of(p)
             if f["kind"] == "enum":
                 doms.append([worlds.unbits(bits(v, 32)) for v in f["values"]])
+            elif f["w"] > 12:
+                # too wide to enumerate: boundary values of the type plus a few random ones (as unsigned patterns)
+                w_ = f["w"]
+                dv = {0, 1, 2, (1 << (w_ - 1)) - 1, 1 << (w_ - 1), (1 << (w_ - 1)) + 1, (1 << w_) - 2, (1 << w_) - 1}
+                dv |= {self.rnd.getrandbits(w_) for _ in range(4)}
+                dv |= {int(x) & ((1 << w_) - 1) for x in op.get("hints", {}).get(p, [])}
+                doms.append(sorted(dv))
             else:
                 doms.append(list(range(1 << f["w"])))
         total = 1
         for d in doms:
             total *= len(d)
         saved = self.project()
+        wide = any(self._w(p_) > 12 for p_ in paths)
         if op.get("mode") == "around":
             # rows = a few real solutions of the unpinned call plus all their single-field mutations
             sols = []
@@ -551,7 +559,10 @@ class Session:
             if out == 2:
                 others[e] = others.get(e, 0) + 1
                 reset_soft()
-            rows.append(list(combo) + [out])
+            if wide:
+                rows.append([bits(n_, self._w(p_)) for p_, n_ in zip(paths, combo)] + [out])
+            else:
+                rows.append(list(combo) + [out])
         # restore the values the probes overwrote
         cur = self.project()
         for p, b in saved["v"].items():
@@ -560,7 +571,7 @@ class Session:
                     self.assign(p, b)
                 except Exception:
                     pass
-        ev = {"op": "probe", "call": self._call_rec(call), "paths": paths, "rows": rows,
+        ev = {"op": "probe", "call": self._call_rec(call), "paths": paths, "rows": rows, "wide": wide,
               "post": self.project(), "stk": stk(), "exc": "none"}
         if others:
             ev["other_exc"] = others
